@@ -214,6 +214,76 @@ def run(ctx):
 
     # strategy selection of KFACPreconditioner.__init__ (enum and float paths), single process world
     strategy_stream(ctx)
+    history_stream(ctx)
+    interpreter_stream(ctx)
+
+
+def history_stream(ctx):
+    """the assignment is a function of its arguments only: the same cost dictionary and world size built
+    for several gradient-worker counts in descending / random order inside ONE process (stale caches)"""
+    rng = ctx.rng
+    lines, pend = [], []
+    for _ in range(ctx.budget(12, 120)):
+        w = rng.choice([4, 6, 8, 12, 16])
+        work = gen.gen_work(rng, nlayers=rng.choice([3, 5, 9]))
+        ks = gen.divisors(w)
+        order = list(reversed(ks)) if rng.random() < 0.5 else rng.sample(ks, len(ks))
+        colocate = rng.random() < 0.3
+        for k in order:
+            one_case(ctx, lines, pend, w, k, colocate, work, ranks=set(rng.sample(range(w), 2)))
+        ctx.count('k-sweep-' + ('desc' if order == list(reversed(ks)) else 'random'))
+    import re
+    for (case, il), mo in zip(pend, ctx.model.ask(lines)):
+        ctx.compare('kaisa-queries-history', case, mo, il)
+
+
+def interpreter_stream(ctx):
+    """every rank is its own Python interpreter with its own string-hash seed: the views must still agree"""
+    import json
+    import subprocess
+    import sys
+    rng = ctx.rng
+    code = (
+        'import sys, json, warnings; warnings.filterwarnings(\"ignore\"); sys.path.insert(0, sys.argv[1])\n'
+        'from kfac.assignment import KAISAAssignment\n'
+        'cases = json.loads(sys.argv[2]); out = []\n'
+        'for w, k, col, work in cases:\n'
+        '    calls = []\n'
+        '    a = KAISAAssignment(work, local_rank=0, world_size=w, grad_worker_fraction=k / w,\n'
+        '                        group_func=lambda r: calls.append(sorted(r)), colocate_factors=col)\n'
+        '    out.append([{l: {f: a.inv_worker(l, f) for f in a.get_factors(l)} for l in a.get_layers()}, calls])\n'
+        'print(json.dumps(out))\n')
+    cases = []
+    for _ in range(ctx.budget(8, 60)):
+        w = rng.choice([4, 6, 8])
+        k = rng.choice(gen.divisors(w))
+        work = gen.gen_work(rng, nlayers=rng.choice([4, 7, 12]))
+        # many ties in the summed costs
+        for l in work:
+            work[l] = {f: 1 for f in work[l]}
+        cases.append([w, k, rng.random() < 0.5, work])
+    outs = []
+    for seed in ('1', '2', '12345'):
+        import os
+        env = dict(os.environ, PYTHONHASHSEED=seed)
+        p = subprocess.run([sys.executable, '-c', code, __import__('common').REPO, json.dumps(cases)],
+                           capture_output=True, text=True, env=env)
+        if p.returncode != 0:
+            ctx.fail('sub-interpreter failed: ' + p.stderr[-300:], {'seed': seed}, 'interpreter-failed')
+            return
+        outs.append(json.loads(p.stdout.strip().splitlines()[-1]))
+    for i, c in enumerate(cases):
+        for o in outs[1:]:
+            if o[i][0] != outs[0][i][0]:
+                ctx.fail('ranks running as separate interpreters (different string-hash seeds) derive different inverse '
+                         'workers', {'w': c[0], 'k': c[1], 'colocate': c[2], 'work': c[3]}, 'interpreter-dependent')
+                return
+            if o[i][1] != outs[0][i][1]:
+                ctx.fail('group creation order depends on the interpreter\'s hash seed',
+                         {'w': c[0], 'k': c[1], 'colocate': c[2], 'work': c[3]}, 'interpreter-group-order')
+                return
+        ctx.evaluations += 1
+    ctx.count('interpreter-cases', len(cases))
 
 
 def strategy_stream(ctx):
